@@ -96,7 +96,7 @@ fn ref_utf8_len(v: u64) -> usize {
 }
 
 //@ prop: C02
-//@ also: C08 C15
+//@ also: C08 C15 C04 C18
 //@ drives: bitrepr::encode_to_utf8like, bitrepr::utf8like_bytesize
 //@ bound: every u64 value (complete: values < 2^36 must encode, larger ones must be rejected)
 //@ asserts: the code decodes back to the value with the RFC 9639 reference decoder, is in shortest form (canonical), has exactly ref_utf8_len(v) = utf8like_bytesize(v) bytes; values >= 2^36 give an error
@@ -259,6 +259,7 @@ fn c02_h45_sample_size_and_channel_codes() {
 }
 
 //@ prop: C08
+//@ also: C04 C18
 //@ drives: FrameHeader::count_bits, utf8like_bytesize, BlockSizeSpec::count_extra_bits, SampleRateSpec::count_extra_bits
 //@ bound: every header (both blocking strategies, every code class and payload, frame numbers < 2^31, sample numbers < 2^36)
 //@ asserts: count_bits() == 16 (sync, reserved, strategy) + 16 (codes) + 8*len(number) + extra block-size bits + extra sample-rate bits + 8 (CRC) with len() the RFC number length - i.e. the length of what H1-H5 and H7 show is written
@@ -960,6 +961,50 @@ fn c12_failing_sink_frame() {
     std::mem::forget(f);
 }
 
+fn frame_retry_after_fault_at(k: usize, full: &RecSink) {
+    let f = bare_frame();
+    let mut failing = RecSink::new(k);
+    let r = f.write(&mut failing);
+    let is_sink_err = matches!(r, Err(OutputError::Sink(_)));
+    std::mem::forget(r);
+    assert!(is_sink_err);
+    assert!(failing.is_prefix_of(full));
+    let mut again = RecSink::new(usize::MAX);
+    let r = f.write(&mut again);
+    let ok = r.is_ok();
+    std::mem::forget(r);
+    assert!(ok);
+    assert!(again.len == full.len && again.ops == full.ops);
+    assert!(again.is_prefix_of(full) && full.is_prefix_of(&again));
+    std::mem::forget(f);
+}
+
+//@ prop: C12
+//@ also: C10
+//@ drives: Frame::write twice on one thread: a write that fails on the caller's sink at a CONCRETE operation (first, fifth, last), then the same frame into a healthy sink (FRAME_CRC_BUFFER scratch sink and byte buffer reused)
+//@ bound: the header+footer frame of c12_failing_sink_frame; fault points k = 0, 4 and the last operation (concrete per path: with a symbolic fault point a leaked scratch makes the second write's length symbolic and CBMC exhausts memory instead of answering - measured on two seeded changes)
+//@ asserts: the second write succeeds and produces exactly the bits of an undisturbed write: nothing of the failed attempt is left in the thread-local scratch sink
+//@ stubs: as c12_failing_sink_frame
+#[kani::proof]
+#[kani::unwind(14)]
+#[kani::stub(alloc::fmt::format, fmt_stub)]
+#[kani::stub(crc::crc8::update_table, crc8_update_stub)]
+#[kani::stub(crc::crc16::update_table, crc16_update_stub)]
+fn c12_frame_retry_after_fault_at_fixed_points() {
+    let f = bare_frame();
+    let mut full = RecSink::new(usize::MAX);
+    let r = f.write(&mut full);
+    let ok = r.is_ok();
+    std::mem::forget(r);
+    std::mem::forget(f);
+    assert!(ok && full.ops >= 6);
+    let last = full.ops - 1;
+    frame_retry_after_fault_at(0, &full);
+    frame_retry_after_fault_at(4, &full);
+    frame_retry_after_fault_at(last, &full);
+    kani::cover!(true);
+}
+
 //@ prop: C12
 //@ tier: thorough
 //@ drives: Frame::precompute_bitstream, Frame::write (precomputed path)
@@ -1015,7 +1060,8 @@ fn c08_frame_write_counts_and_crc() {
 
 //@ prop: C10
 //@ also: C12
-//@ drives: FrameHeader::write (HEADER_CRC_BUFFER scratch sink reused across calls), Frame::write (FRAME_CRC_BUFFER scratch sink and byte buffer reused across calls), after earlier calls on the same thread that FAILED part-way or wrote something longer
+//@ tier: thorough
+//@ drives: FrameHeader::write (HEADER_CRC_BUFFER scratch sink reused across calls), Frame::write (FRAME_CRC_BUFFER scratch sink and byte buffer reused across calls), after earlier calls on the same thread that FAILED part-way or wrote something longer (thorough tier since round 3: five writes in one harness exhaust 12 GB or the 10-min cap on a loaded machine; the quick tier has the two-call histories c12_failing_sink_frame / c12_frame_retry_after_fault_at_fixed_points)
 //@ bound: histories of three calls on one thread: (1) a header write that fails after filling the scratch sink (start sample 2^40 is not encodable), (2) a frame write that fails the same way, (3) a successful longer header write; then the header and frame under test (16-sample header, frame 3; header+footer frame)
 //@ asserts: the bytes written by the calls under test are exactly those of a fresh thread: length == count_bits(), the reference header decoder accepts them with the same fields, CRC-8/CRC-16 equal the bitwise reference over exactly these bytes (nothing of the earlier calls leaks in)
 //@ stubs: alloc::fmt::format -> empty string
